@@ -200,7 +200,7 @@ def run(facts, rep, tier):
                                 reg.loc(bi)))
     except Broken:
         n6 = 0
-    rep.instances("R03.6", n6, floor=1, what="decisions between the last gate and the table update that can skip it")
+    rep.instances("R03.6", n6, floor=0, what="decisions between the last gate and the table update that can skip it")
     # the code run on a row: closures of the updater must not capture the table or another row; nothing reachable from the
     # row-update entries may touch the table, the counters or global state
     if not T["entries"]:
